@@ -218,8 +218,33 @@ def pick_loader(*parts: Any) -> str:
     return "suspend" if x < 0.42 else ("fs" if x < 0.60 else "dict")
 
 
+class _CaseBudget(BaseException):
+    """Raised by the wall-clock watchdog around ONE generated case (never a verdict)."""
+
+
+CASE_BUDGET_S = 90
+
+
+def _on_alarm(*_a: Any) -> None:
+    raise _CaseBudget()
+
+
 def _run(ctx: Ctx, chk: MON.Checker, case: dict[str, Any], origin: Any) -> None:
-    res = MON.run_case(chk, case)
+    # A generated program can feed a loop its own growing output (an included partial that
+    # re-assigns the list the caller iterates, inside nested loops): the render is correct but
+    # takes hours.  Such a case is skipped and counted; it is neither held nor violated.
+    import signal
+
+    old = signal.signal(signal.SIGALRM, _on_alarm)
+    signal.alarm(CASE_BUDGET_S)
+    try:
+        res = MON.run_case(chk, case)
+    except _CaseBudget:
+        ctx.count("cases_skipped:wall-clock-watchdog")
+        return
+    finally:
+        signal.alarm(0)
+        signal.signal(signal.SIGALRM, old)
     if res is None:
         ctx.count("cases_rejected")
         return
